@@ -147,6 +147,9 @@ func DropPointAfterRange(xx []XPart) ([]XPart, bool) {
 	dropped := false
 	// forward strand: [Range ..p)[site p]*[Point p]  -> point dropped.
 	// reverse strand (reading order mirrored): [Point p][site p]*[Range ..p) -> point dropped.
+	// Only members of the same join are reduced against each other. Once a
+	// point was dropped, a site at p+1 (absorbed by that point before it was
+	// itself dropped) and further points at p may follow.
 	n := len(xx)
 	drop := make([]bool, n)
 	for a := 0; a < n; a++ {
@@ -154,44 +157,29 @@ func DropPointAfterRange(xx []XPart) ([]XPart, bool) {
 		if A.Kind != KRange || !A.InList || A.Ord {
 			continue
 		}
-		if !A.Rev {
-			for b := a + 1; b < n; b++ {
-				B := xx[b]
-				if drop[b] {
-					continue
-				}
-				if !B.InList || B.Ord || B.Rev != A.Rev {
-					break
-				}
-				if B.Kind == KSite && (B.Lo == A.Hi || B.Lo == A.Hi+1) {
-					continue // sites next to the point are absorbed first
-				}
-				if B.Kind == KPoint && B.Lo == A.Hi {
-					drop[b] = true
-					dropped = true
-					continue // a second identical point would be dropped too
-				}
+		step, b := 1, a+1
+		if A.Rev {
+			step, b = -1, a-1
+		}
+		one := false
+		for ; b >= 0 && b < n; b += step {
+			B := xx[b]
+			if drop[b] {
+				continue
+			}
+			if !B.InList || B.Ord || B.Rev != A.Rev || B.Group != A.Group {
 				break
 			}
-		} else {
-			for b := a - 1; b >= 0; b-- {
-				B := xx[b]
-				if drop[b] {
-					continue
-				}
-				if !B.InList || B.Ord || B.Rev != A.Rev {
-					break
-				}
-				if B.Kind == KSite && (B.Lo == A.Hi || B.Lo == A.Hi+1) {
-					continue // sites next to the point are absorbed first
-				}
-				if B.Kind == KPoint && B.Lo == A.Hi {
-					drop[b] = true
-					dropped = true
-					continue
-				}
-				break
+			if B.Kind == KSite && (B.Lo == A.Hi || (one && B.Lo == A.Hi+1)) {
+				continue
 			}
+			if B.Kind == KPoint && B.Lo == A.Hi {
+				drop[b] = true
+				dropped = true
+				one = true
+				continue
+			}
+			break
 		}
 	}
 	for k, x := range xx {
